@@ -104,6 +104,21 @@ func (w *responseWriter) WriteHeader(status int) {
 	if _, ok := w.header["Date"]; !ok {
 		w.header.Set("Date", time.Now().UTC().Format(http.TimeFormat))
 	}
+	// An empty Content-Length value, or values that differ from each other, are malformed as well.
+	// The check below only looks at a non-empty first value.
+	if clens := w.header["Content-Length"]; len(clens) > 0 {
+		for _, v := range clens {
+			if v == "" || v != clens[0] {
+				logger := w.logger
+				if logger == nil {
+					logger = slog.Default()
+				}
+				logger.Error("Malformed Content-Length", "value", strings.Join(clens, ", "))
+				w.header.Del("Content-Length")
+				break
+			}
+		}
+	}
 	// Content-Length checking
 	// use ParseUint instead of ParseInt, as negative values are invalid
 	if clen := w.header.Get("Content-Length"); clen != "" {
@@ -240,6 +255,11 @@ func (w *responseWriter) writeHeader(status int) error {
 		}
 		// connection-specific header fields must not be sent on HTTP/3, see section 4.2 of RFC 9114
 		if slices.Contains(invalidHeaderFields[:], strings.ToLower(k)) {
+			continue
+		}
+		// A 1xx response doesn't carry a Content-Length (section 8.6 of RFC 9110), the standard library omits it as well.
+		// The value set by the handler is only validated once the final status is written.
+		if status < 200 && strings.EqualFold(k, "Content-Length") {
 			continue
 		}
 		for index := range v {
